@@ -223,3 +223,18 @@ Theorem C11_lower_rich_of_attr :
   forall a, lower_attrs (rich_of_attr a) = Some a.
 Proof. exact Proofs.lower_rich_of_attr. Qed.
 Print Assumptions C11_lower_rich_of_attr.
+
+Theorem C11_try_into_coherent_rendered :
+  forall tuple_of e ims,
+    expand_try_into e = EOk ims ->
+    (forall im t, In im ims -> ti_mode im = MMove -> ti_types im = [t] -> tuple_of t = None) ->
+    NoDup (map (fun im => (ti_mode im, target tuple_of (ti_mode im) (ti_types im))) ims).
+Proof. exact Proofs.try_into_coherent_rendered. Qed.
+Print Assumptions C11_try_into_coherent_rendered.
+
+Theorem C11_try_into_tuple_field_collides_refuted :
+  exists tuple_of e ims im1 im2, wf_enum e /\ expand_try_into e = EOk ims /\ In im1 ims /\ In im2 ims /\
+    ti_types im1 <> ti_types im2 /\ ti_mode im1 = ti_mode im2 /\
+    target tuple_of (ti_mode im1) (ti_types im1) = target tuple_of (ti_mode im2) (ti_types im2).
+Proof. exact Proofs.try_into_tuple_field_collides_refuted. Qed.
+Print Assumptions C11_try_into_tuple_field_collides_refuted.
